@@ -1,7 +1,8 @@
 /-
 Oracle driver for C05 (trie queries).  Header: `trie <hexpattern>…` (inserted in order,
 then `BuildFailureLinks`).  Ops: `match <hex>`, `findall <hex>`, `prefix <hex>`,
-`fuzzy <hex>`.  String lists print as `[hex hex …]` (nil and empty both `[]`).
+`fuzzy <hex>`, and for histories `insert <hex>` / `build` (answer `ok`): Insert…, Build,
+query, Insert…, Build, query.  String lists print as `[hex hex …]` (nil and empty both `[]`).
 
 `dump` (no argument) prints the STRUCTURE of the trie, to be compared with the same line
 computed by the Go harness from the real pointer structure (reflection over the unexported
@@ -63,14 +64,31 @@ def runOp (t : Trie) (ts : List String) : Option (Option String) :=
       | _ => none
   | _ => none
 
+/-- State-changing ops of the history stream: `insert <hex>` = `Insert(pattern)` on the
+current trie (its failure table is left as it is: new nodes have `nil`), `build` =
+`BuildFailureLinks()` on the current trie (`Trie.rebuild`: the old table stays underneath).
+`none` = not such an op, `some none` = panic. -/
+def mutOp (t : Trie) (ts : List String) : Option (Option Trie) :=
+  match ts with
+  | ["build"] => some t.rebuild
+  | ["insert", arg] =>
+    match unhex arg with
+    | some bs => if bytesOK bs then some (some (t.insert (decodeAll bs))) else none
+    | none => none
+  | _ => none
+
 def runOps : Option Trie → List String → List String
   | _, [] => []
   | none, _ :: ls => "dead" :: runOps none ls
   | some t, l :: ls =>
-    match runOp t (toks l) with
-    | none => "bad-op" :: runOps (some t) ls
+    match mutOp t (toks l) with
+    | some (some t') => "ok" :: runOps (some t') ls
     | some none => "panic" :: runOps none ls
-    | some (some out) => out :: runOps (some t) ls
+    | none =>
+      match runOp t (toks l) with
+      | none => "bad-op" :: runOps (some t) ls
+      | some none => "panic" :: runOps none ls
+      | some (some out) => out :: runOps (some t) ls
 
 def parsePatterns (hdr : List String) : Option (List (List Nat)) :=
   hdr.mapM fun h => (unhex h).bind fun bs => if bytesOK bs then some bs else none
